@@ -21,7 +21,29 @@
 (* Time: one Tick is one resend period (Circuit.resend_every = 3 s, six    *)
 (* rounds of HippoClient._attempt_resends).  A reliable message is         *)
 (* transmitted Budget times (ReliableResendInfo.tries_left) and then given *)
-(* up; teleport() waits TpTicks periods (30 s) for the new region.         *)
+(* up; teleport() waits TpTicks periods (30 s) for the new region.  A lost *)
+(* datagram is a Tick without the acknowledgement.                         *)
+(*                                                                         *)
+(* Environment assumptions (guards of environment actions):                *)
+(*  - a simulator talks to the client from UseCircuitCode until the client *)
+(*    disconnects it ("Simulator has gone away", disconnect()'s docstring) *)
+(*  - RegionHandshake arrives while the client waits for it (after         *)
+(*    UseCircuitCode was acknowledged); TeleportFinish / CrossedRegion /   *)
+(*    EstablishAgentCommunication / TeleportFailed arrive on the event     *)
+(*    queue of a connected region (message.xml bans them from UDP)         *)
+(*  - no second connect() on a region object while one is under way, and   *)
+(*    none at all on a region that was disconnected while its connect()    *)
+(*    waited for RegionHandshake ("stale": the old waiter is still         *)
+(*    subscribed and would answer the next RegionHandshake a second time)  *)
+(*  - every seed capability URL belongs to one simulator address           *)
+(* Modelled as the code behaves, although a user might expect otherwise    *)
+(* (reported, not judged here): futures dropped by Circuit.disconnect()    *)
+(* are never resolved ("hung"); EstablishAgentCommunication for a new      *)
+(* neighbour registers it and opens a circuit but does not connect, for a  *)
+(* region whose circuit is alive it reconnects; teleport() waits for the   *)
+(* region with the handle it asked for, not the announced one, cancels     *)
+(* that region's `connected` future on timeout, and a later completion of  *)
+(* connect() then raises InvalidStateError.                                *)
 (***************************************************************************)
 EXTENDS Naturals, Sequences, FiniteSets, TLC
 
@@ -35,7 +57,7 @@ CONSTANTS Sims,       \* simulator addresses that may become regions (1 is the l
           TpTicks,    \* resend periods teleport() waits for the new region (code: 30 s / 3 s)
           Bugs,       \* defects of the pinned tree the model mirrors (see UccNoResend below)
           Acts,       \* which actions the bounded model explores (restricting the user / the environment is always sound)
-          Start       \* "fresh": as after login(connect=False);  "connected": after the login handshake
+          Start       \* "fresh" / "connected" / "both": see Init
 
 UCC == "UseCircuitCode"
 CAM == "CompleteAgentMovement"
@@ -62,6 +84,10 @@ vars == <<regs, main, tp, calls, env, out>>
 (*  a, h, seed   circuit address, handle (0 = None), seed generation       *)
 (*  circ         "closed" (a Circuit that is not alive: just opened, or    *)
 (*               disconnected) / "alive"                                   *)
+(*  cg           how many Circuit objects this region has had: open_circuit *)
+(*               replaces one that is not alive, and with it the memory of *)
+(*               reliable packets already seen -- a simulator that comes   *)
+(*               back after a restart numbers its packets from 1 again     *)
 (*  caps         the seed capability has been fetched (EventQueueGet known)*)
 (*  named        RegionHandshake has been processed (region.name set)      *)
 (*  eq           the event queue is being polled                           *)
@@ -78,17 +104,21 @@ vars == <<regs, main, tp, calls, env, out>>
 (*  un           circuit.unacked_reliable in insertion order: [m, n] with  *)
 (*               n = retransmissions so far                                *)
 (***************************************************************************)
-NewRegion(a, h, s) == [a |-> a, h |-> h, seed |-> s, circ |-> "closed", caps |-> FALSE, named |-> FALSE, eq |-> FALSE,
+NewRegion(a, h, s) == [a |-> a, h |-> h, seed |-> s, circ |-> "closed", cg |-> 1, caps |-> FALSE, named |-> FALSE, eq |-> FALSE,
                        conn |-> "p", st |-> "idle", mn |-> FALSE, rh |-> FALSE, cl |-> 0, un |-> <<>>]
 TpNone == [st |-> "none", h |-> 0, q |-> "", r |-> 0, age |-> 0]
 Quiet == [ev |-> "init", tx |-> <<>>, http |-> <<>>, raised |-> ""]
 
-Init == /\ regs = IF Start = "fresh" THEN <<NewRegion(1, 1, 1)>>
-                  ELSE <<[NewRegion(1, 1, 1) EXCEPT !.circ = "alive", !.caps = TRUE, !.named = TRUE, !.eq = TRUE, !.conn = "d"]>>
-        /\ main = IF Start = "fresh" THEN 0 ELSE 1
+Connected(a) == [NewRegion(a, a, 1) EXCEPT !.circ = "alive", !.caps = TRUE, !.named = TRUE, !.eq = TRUE, !.conn = "d"]
+\* "fresh": as login(connect=False) leaves the session; "connected": after the login handshake with simulator 1;
+\* "both": after a TeleportFinish to simulator 2 and the handshake there (simulator 1 has not closed its circuit yet)
+Init == /\ regs = CASE Start = "fresh" -> <<NewRegion(1, 1, 1)>>
+                  [] Start = "connected" -> <<Connected(1)>>
+                  [] Start = "both" -> <<Connected(1), Connected(2)>>
+        /\ main = CASE Start = "fresh" -> 0 [] Start = "connected" -> 1 [] Start = "both" -> 2
         /\ tp = TpNone
         /\ calls = IF Start = "fresh" THEN <<>> ELSE <<[a |-> 1, st |-> "d"]>>
-        /\ env = [seedOk |-> TRUE, loggedOut |-> FALSE, expired |-> FALSE, anns |-> 0]
+        /\ env = [seedOk |-> TRUE, loggedOut |-> FALSE, expired |-> FALSE, anns |-> IF Start = "both" THEN 1 ELSE 0]
         /\ out = Quiet
 
 (******************************* helpers ***********************************)
@@ -282,7 +312,7 @@ Announce(via, kind, a, s) ==
            i == Idx(W1.regs, a)
            alive == W1.regs[i].circ = "alive"
            \* open_circuit: a circuit that is not alive is replaced by a new one
-           W2 == IF alive THEN W1 ELSE DropSends(W1, i)
+           W2 == IF alive THEN W1 ELSE [DropSends(W1, i) EXCEPT !.regs[i].cg = IF Known(a) THEN @ + 1 ELSE @]
            \* need_connect = circuit alive or moving_to_region
            W3 == IF alive \/ moving THEN StartConn(W2, i, moving, 0) ELSE W2
            W4 == IF kind = "TeleportFinish" THEN TpDeliver(W3, "Finish") ELSE W3
